@@ -103,16 +103,18 @@ def run(chk):
     chk.sample(recs[3])
 
     # --- binding self-test: a corrupted record must be rejected by the trace spec ------------------------------
-    bad = [dict(r) for r in recs[:50]]
-    bad[7] = dict(bad[7])
+    rejected = {gi for gi, _ in res["rejects"]}
+    bad = [dict(r) for i, r in enumerate(recs[:200]) if i not in rejected][:50]      # accepted records only: a real rejection must not be taken for the test's
+    idx = None
     for j, rr in enumerate(bad):
         if rr["k"] in ("u", "s") and (len(rr["b"]) < 5):
             rr["v"] = [rr["v"][0] ^ 1, rr["v"][1]]
             idx = j
             break
-    st = tlc.validate("Leb_Trace", "Leb_Trace.cfg", bad, shards=1)
-    if [i for i, _ in st["rejects"]] != [idx]:
-        raise tlc.TLCError("binding self-test: corrupted record %d not (only) rejected: %s" % (idx, st["rejects"]))
-    chk.extra["self_test_rejected"] = True
+    if idx is not None:
+        st = tlc.validate("Leb_Trace", "Leb_Trace.cfg", bad, shards=1)
+        if [i for i, _ in st["rejects"]] != [idx]:
+            raise tlc.TLCError("binding self-test: corrupted record %d not (only) rejected: %s" % (idx, st["rejects"]))
+        chk.extra["self_test_rejected"] = True
     chk.assumptions += ["five-byte sequences whose fifth byte carries bits beyond bit 31 are outside the statement: only 'consumes five bytes' is checked",
                         "TLC 1.8 evaluates the spec operators correctly"]
